@@ -49,7 +49,7 @@ class LintVisitor(ModelVisitor):
             else:
                 lhs_max = (1 << lhs_w) - 1
                 
-                if rhs_v > lhs_max:
+                if int(rhs_v) > lhs_max:
                     self.ret += "%s: %d is out-of-bounds for domain %d..%d\n" % (
                         SourceInfo.toString(e.srcinfo), int(rhs_v), 0, lhs_max)
 
